@@ -132,6 +132,25 @@ def run(ctx, res):
                     res.violations.append({'key': fid, 'what': 'recorded finding reproduced', 'replay': None}); res.count('finding:' + fid)
                 else:
                     res.violations.append({'key': None, 'sig': 'value:' + dt + ':' + str(fid), 'what': 'datatype %s: %s' % (dt.split('#')[-1], why), 'replay': {'datatype': dt, 'form': s, 'kind': kind}})
+    # end to end through the text readers (comma, tab and semicolon separated files; the latter takes the delimiter-sniffing
+    # fallback of _read_csv): under datatypes the engine does not canonicalise the lexical form of the cell must arrive unchanged
+    from .. import family, mapcase
+    EX = mapcase.EX
+    TAME = ['007', '1.50', '20.00', '1e3', '-0', '+5', '3.14159265358979323846', '0.10', '1E-2', '00', '12345678901234567890', '10', 'abc', '2.0', '1.0E0', '0x10', '1_000']
+    cases = []
+    for _ in range(ctx.scale(24, 400)):
+        n = ctx.rng.choice([1, 2, 4, 6])
+        rows = [[str(i + 1), ctx.rng.choice(TAME), ctx.rng.choice(TAME)] for i in range(n)]
+        def tmap(k, v, ck='iri', tt=''):
+            return {'k': k, 'v': v, 'ck': ck, 'tt': tt}
+        poms = []
+        for j, dt in enumerate(ctx.rng.sample(['decimal', 'double', 'float', 'string', None, 'anyURI', 'date'], 3)):
+            poms.append({'preds': [tmap('const', EX + 'p/d%d' % j)], 'objs': [{'m': tmap('ref', ctx.rng.choice(['v', 'w'])), 'lang': None,
+                         'dt': (tmap('const', XSD + dt) if dt else None), 'joins': []}], 'graphs': []})
+        poms.append({'preds': [tmap('const', EX + 'p/t')], 'objs': [{'m': tmap('templ', 'x{v}y', 'iri', 'lit'), 'lang': None, 'dt': None, 'joins': []}], 'graphs': []})
+        cases.append({'cfg': {'nquads': False, 'mode': 'NO'}, 'sources': [{'key': 'S0', 'kind': ctx.rng.choice(['csv', 'ssv', 'ssv', 'tsv']), 'cols': ['id', 'v', 'w'], 'rows': rows}],
+                      'doc': [{'id': EX + 'tm/T', 'src': 'S0', 'nonasserted': False, 'subj': tmap('templ', EX + 'r/{id}'), 'sjoins': [], 'classes': [], 'sgraphs': [], 'poms': poms}]})
+    family.run_family(ctx, res, cases, lambda c: {'file-kind:' + c['sources'][0]['kind']})
     res.samples = [{'datatype': XSD + 'integer', 'form': f} for f in forms[:6]]
 
 
